@@ -33,13 +33,18 @@ class GlobalsWrapper():
         self.node = node
         self.path = path
 
+    def lookup_config_entry(self, name):
+        # do not go through self.ecfg[name]: if only some descendants of the entry have been evaluated so far it
+        # holds a partially filled placeholder; evaluating the node is memoised and always gives the final object
+        return self.ctx.evaluate_node(self.ecfg._cfgobj[name], [name])
+
     def __getattr__(self, name):
         if name in self.gbls:
             return self.gbls[name]
 
         if name in self.ecfg._cfgobj:
             with self.ctx.require_all_safe(self.node, self.path):
-                return self.ecfg[name]
+                return self.lookup_config_entry(name)
         elif name in __builtins__:
             return __builtins__[name]
         else:
@@ -61,7 +66,7 @@ class NamesFallback(dict):
         wrapper = self.wrapper
         if name in wrapper.ecfg._cfgobj:
             with wrapper.ctx.require_all_safe(wrapper.node, wrapper.path):
-                return wrapper.ecfg[name]
+                return wrapper.lookup_config_entry(name)
 
         return super().__getitem__(name)
 
